@@ -644,9 +644,17 @@ public:
 		return std::nullopt;
 	}
 
-	[[nodiscard]] std::optional<CMsgPackReadBinaryScope<TReader>> OpenBinaryScope(size_t) const
+	[[nodiscard]] std::optional<CMsgPackReadBinaryScope<TReader>> OpenBinaryScope(size_t)
 	{
-		if (size_t sz = 0; mMsgPackReader->ReadBinarySize(sz)) {
+		CheckEnd();
+		// Leave a value of another type in place (a byte container will then try to load it as an array)
+		if (mMsgPackReader->ReadValueType() != ValueType::BinaryArray) {
+			return std::nullopt;
+		}
+		size_t sz = 0;
+		const bool result = mMsgPackReader->ReadBinarySize(sz);
+		++mIndex;
+		if (result) {
 			return std::make_optional<CMsgPackReadBinaryScope<TReader>>(sz, mMsgPackReader, GetContext());
 		}
 		return std::nullopt;
@@ -774,6 +782,10 @@ public:
 	{
 		if (FindValueByKey(key))
 		{
+			// Leave a value of another type in place (a byte container will then try to load it as an array)
+			if (mMsgPackReader->ReadValueType() != ValueType::BinaryArray) {
+				return std::nullopt;
+			}
 			if (size_t sz = 0; mMsgPackReader->ReadBinarySize(sz)) {
 				return std::make_optional<CMsgPackReadBinaryScope<TReader>>(sz, mMsgPackReader, GetContext(), this);
 			}
@@ -919,6 +931,10 @@ public:
 
 	[[nodiscard]] std::optional<CMsgPackReadBinaryScope<IMsgPackReader>> OpenBinaryScope(size_t) const
 	{
+		// Leave a value of another type in place (a byte container will then try to load it as an array)
+		if (mMsgPackReader->ReadValueType() != ValueType::BinaryArray) {
+			return std::nullopt;
+		}
 		if (size_t sz = 0; mMsgPackReader->ReadBinarySize(sz)) {
 			return std::make_optional<CMsgPackReadBinaryScope<IMsgPackReader>>(sz, mMsgPackReader, GetContext());
 		}
